@@ -11,6 +11,8 @@ import (
 	"encoding/json"
 	"fmt"
 	"go.uber.org/atomic"
+	"go/ast"
+	"io"
 	"math"
 	"math/rand"
 	"sort"
@@ -29,13 +31,16 @@ import (
 )
 
 type input struct {
-	Kind   string         `json:"kind"` // labels (TSDB stores + proxy) | bucket (BucketStore + proxy) | cleanup
-	Blocks []tu.BlockIn   `json:"blocks,omitempty"`
-	Exts   [][]tu.Lbl     `json:"exts"`
-	Series []tu.SeriesIn  `json:"series"`
-	Ms     []tu.MatcherIn `json:"ms"`
-	WRL    []string       `json:"wrl"`
-	Label  string         `json:"label"`
+	Kind   string       `json:"kind"` // labels (TSDB stores + proxy) | bucket (BucketStore + proxy) | cleanup
+	Blocks []tu.BlockIn `json:"blocks,omitempty"`
+	Exts   [][]tu.Lbl   `json:"exts"`
+	// InitExts, when set (same length as Exts): store i is constructed with InitExts[i] and its external
+	// labels are then replaced with Exts[i] by SetExtLset before any query (a receiver reload does this)
+	InitExts [][]tu.Lbl     `json:"init_exts,omitempty"`
+	Series   []tu.SeriesIn  `json:"series"`
+	Ms       []tu.MatcherIn `json:"ms"`
+	WRL      []string       `json:"wrl"`
+	Label    string         `json:"label"`
 }
 
 type recServer struct {
@@ -172,8 +177,18 @@ func run(raw json.RawMessage) (common.Case, error) {
 	var clients []store.Client
 	var storeObs []obs
 	var coqStores []string
+	var coqInits []string
 	for i, e := range exts {
-		st := store.NewTSDBStore(nil, sc.DB, component.Rule, e)
+		init := e
+		if len(in.InitExts) == len(in.Exts) {
+			init = tu.MkLabels(in.InitExts[i])
+			tu.AddValues(uni, init)
+		}
+		coqInits = append(coqInits, tu.CoqLabels(init))
+		st := store.NewTSDBStore(nil, sc.DB, component.Rule, init)
+		if len(in.InitExts) == len(in.Exts) {
+			st.SetExtLset(e)
+		}
 		o, err := askAll(st, in)
 		if err != nil {
 			return c, err
@@ -188,7 +203,7 @@ func run(raw json.RawMessage) (common.Case, error) {
 	if err != nil {
 		return c, err
 	}
-	c.Coq = common.App("CLabels", common.List(stored), common.List(coqExts), tu.CoqStrs(in.WRL), coqMs, common.Bytes(in.Label),
+	c.Coq = common.App("CLabels", common.List(stored), common.List(coqInits), common.List(coqExts), tu.CoqStrs(in.WRL), coqMs, common.Bytes(in.Label),
 		common.List(coqStores), po.coq())
 	c.Obs = map[string]any{"proxy_names": po.names, "proxy_values": po.values, "proxy_series": len(po.series)}
 
@@ -447,6 +462,38 @@ func gen(r *rand.Rand, tier string, n int) []any {
 				in.WRL = append(in.WRL, common.Pick(r, "replica", "replica", "region", "a", "nope"))
 			}
 			in.Label = common.Pick(r, "__name__", "a", "b", "region", "replica", "cluster", "zone", "nope")
+			// a history: the stores were built with other external labels (names added / removed /
+			// values changed since) and reloaded with SetExtLset before the queries
+			if r.Intn(3) == 0 {
+				for _, e := range in.Exts {
+					var init []tu.Lbl
+					for _, l := range e {
+						switch r.Intn(4) {
+						case 0: // this label is new
+						case 1:
+							init = append(init, tu.Lbl{l[0], common.Pick(r, "eu", "us", "old")})
+						default:
+							init = append(init, l)
+						}
+					}
+					if r.Intn(3) == 0 {
+						has := false
+						for _, l := range e {
+							has = has || l[0] == "tenant"
+						}
+						if !has {
+							init = append(init, tu.Lbl{"tenant", "t0"}) // a label that was removed
+						}
+					}
+					in.InitExts = append(in.InitExts, init)
+				}
+				if r.Intn(2) == 0 && len(in.Exts) > 0 { // ask for a label that is new in the current set
+					e := in.Exts[r.Intn(len(in.Exts))]
+					if len(e) > 0 {
+						in.Label = e[r.Intn(len(e))][0]
+					}
+				}
+			}
 			out = append(out, in)
 		}
 	}
@@ -468,7 +515,73 @@ func gen(r *rand.Rand, tier string, n int) []any {
 	return out
 }
 
+// facts: do TSDBStore.LabelNames / LabelValues read the store's CURRENT external labels
+// (s.getExtLset() / s.extLsetAsLabelSets) where they add the external label names / values, or
+// something else of the store (e.g. a copy made at construction time)?
+func facts(repo string, w io.Writer) error {
+	s, err := common.ParseSrc(repo, "pkg/store/tsdb.go")
+	if err != nil {
+		return err
+	}
+	// every `s.<x>` mentioned in the node, except the request-independent plumbing
+	srcs := func(n ast.Node) (current bool, other []string) {
+		ast.Inspect(n, func(m ast.Node) bool {
+			se, ok := m.(*ast.SelectorExpr)
+			if !ok {
+				return true
+			}
+			if id, ok := se.X.(*ast.Ident); !ok || id.Name != "s" {
+				return true
+			}
+			switch se.Sel.Name {
+			case "getExtLset", "extLsetAsLabelSets", "ExtLabelSets":
+				current = true
+			case "db", "logger", "matcherCache", "buffers", "mtx":
+			default:
+				other = append(other, se.Sel.Name)
+			}
+			return true
+		})
+		return
+	}
+	ln, err := s.FindFunc("TSDBStore.LabelNames")
+	if err != nil {
+		return err
+	}
+	var namesBlock ast.Node
+	ast.Inspect(ln.Body, func(n ast.Node) bool {
+		if is, ok := n.(*ast.IfStmt); ok && namesBlock == nil && s.ExprString(is.Cond) == "len(res) > 0" {
+			namesBlock = is.Body
+		}
+		return true
+	})
+	if namesBlock == nil {
+		return fmt.Errorf("srcfacts: pkg/store/tsdb.go: TSDBStore.LabelNames: `if len(res) > 0` block (external label names) not found")
+	}
+	cur, other := srcs(namesBlock)
+	fmt.Fprintf(w, "(* pkg/store/tsdb.go TSDBStore.LabelNames, block adding the external label names: reads the current external labels: %v; other store fields: %v *)\n", cur, other)
+	fmt.Fprintf(w, "Definition labelnames_reads_current_ext : bool := %s.\n", common.Bool(cur && len(other) == 0))
+	lv, err := s.FindFunc("TSDBStore.LabelValues")
+	if err != nil {
+		return err
+	}
+	var valIf ast.Node
+	ast.Inspect(lv.Body, func(n ast.Node) bool {
+		if is, ok := n.(*ast.IfStmt); ok && valIf == nil && is.Init != nil && strings.Contains(s.ExprString(is.Cond), `val != ""`) {
+			valIf = is.Init
+		}
+		return true
+	})
+	if valIf == nil {
+		return fmt.Errorf("srcfacts: pkg/store/tsdb.go: TSDBStore.LabelValues: `if val := ...; val != \"\"` (external label value) not found")
+	}
+	cur, other = srcs(valIf)
+	fmt.Fprintf(w, "(* pkg/store/tsdb.go TSDBStore.LabelValues, external label value: reads the current external labels: %v; other store fields: %v *)\n", cur, other)
+	fmt.Fprintf(w, "Definition labelvalues_reads_current_ext : bool := %s.\n", common.Bool(cur && len(other) == 0))
+	return nil
+}
+
 func main() {
-	common.Main(common.Prop{ID: "C07", Gen: gen, Run: run, QuickN: 500, ThoroughN: 4000,
+	common.Main(common.Prop{ID: "C07", Facts: facts, Gen: gen, Run: run, QuickN: 500, ThoroughN: 4000,
 		Preamble: "Open Scope Z_scope.\n"})
 }
